@@ -96,10 +96,10 @@ Section P4.
     intro P. destruct f; simpl; [|reflexivity|].
     - apply andb_true_iff. split; [|apply all_occs_true; reflexivity].
       apply (forall_nodes_impl plain_node); [|exact P].
-      intros [p sp|v|items|[cls ctor| |idx|o|cls ctor] ch asr] Hm; cbn [plain_node dict_node_ok] in *; auto.
+      intros [p sp|v|items|[cls ctor| |idx|o|uo|cls ctor] ch asr] Hm; cbn [plain_node dict_node_ok] in *; auto.
       apply negb_true_iff in Hm. cbn [as_instance]. rewrite Hm. reflexivity.
     - apply andb_true_iff. split; [|apply all_occs_true; reflexivity].
-      apply (forall_nodes_impl plain_node); [|exact P]. intros [p sp|v|items|[cls ctor| |idx|o|cls ctor] ch asr]; simpl; auto.
+      apply (forall_nodes_impl plain_node); [|exact P]. intros [p sp|v|items|[cls ctor| |idx|o|uo|cls ctor] ch asr]; simpl; auto.
   Qed.
 
   Lemma no_priors_smap (f : nat -> pspec -> nat * pspec) (s : nat -> nat) (n : snode) :
